@@ -165,7 +165,29 @@ def async_and_registry(R, prog):
                                    IMPL + '::get_vcpu_num': 'diagnostic size read'}, min_sites=5)
 
 
+def pause_policy(R, prog):
+    """K6: the back-off used when the ring is full must match the caller: PhotonPause (photon::thread_yield / semaphore) is chosen only
+    where a photon thread is known to exist - an explicit PhotonContext, or after testing photon::CURRENT.  async_call(), the default
+    call() and the destructor's stop markers come through AutoContext from plain OS threads too."""
+    n = 0
+    for f in [g for g in prog.funcs.values() if g.nname == IMPL + '::enqueue' and g.blocks]:
+        G = K.build_f(R, prog, f)
+        res = an.run(G, [an.GuardTracker(lambda k: 'CURRENT' in k)])
+        ptypes = [f.decls[d].get('type') or '' for d in f.j['params']]
+        photon_ctx = any('PhotonContext' in t for t in ptypes)
+        snd = lambda ev: ev.kind == 'call' and 'send<' in (ev.e.get('fn') or '') and 'PhotonPause' in (ev.e.get('fn') or '')
+        ctxname = ([t for t in ptypes if 'Context' in t] or ['?'])[0].split('::')[-1]
+        k = K.check_at(R, P + '.K6', G, res, snd,
+                       require=lambda st, ev, photon_ctx=photon_ctx: photon_ctx or 'G:photon::CURRENT=T' in st,
+                       key_fn=lambda ev, ctxname=ctxname: '%s.K6:impl::enqueue(%s):photon-backoff-only-for-photon-callers' % (P, ctxname),
+                       describe=lambda ev: 'send<PhotonPause> is chosen only for an explicit PhotonContext or after photon::CURRENT was tested non-null', min_sites=0, what='ring->send<PhotonPause>')
+        n += 1
+    if n < 1:
+        R.broken.append('C08.K6: WorkPool::impl::enqueue not found')
+
+
 def run(R, prog, tier):
+    R.guard(pause_policy, R, prog)
     R.guard(do_call, R, prog)
     R.guard(dispatcher, R, prog)
     R.guard(async_and_registry, R, prog)
